@@ -346,7 +346,39 @@ def law_behaviour(cid, rnd):
         ops.append(dict(op="obs", s=s))
         return len(ops) - 1
 
-    if rnd.random() < 0.6:
+    if rnd.random() < 0.25:
+        # the laws on register states that adding elements does not reach: imported states (all registers at one value,
+        # uniformly random bytes, all large, sparse) - merge is the element-wise maximum whatever the operands look like
+        kind = "imported"
+
+        def state():
+            x = rnd.random()
+            if x < 0.35:
+                v = rnd.choice([0, 1, 2, 16, 24, 25, 26, 32, 63, 64, 65, 128, 200, 249, 250, 255])
+                return {i: v for i in range(256) if v}
+            if x < 0.55:
+                return {i: rnd.randint(1, 255) for i in range(256)}
+            if x < 0.75:
+                lo = rnd.choice([17, 25, 26, 40, 100])
+                return {i: rnd.randint(lo, 255) for i in range(256)}
+            return {rnd.randrange(256): rnd.randint(1, 255) for _ in range(rnd.randint(0, 12))}
+
+        X, Y = state(), state()
+        M_ = {i: max(X.get(i, 0), Y.get(i, 0)) for i in set(X) | set(Y)}
+        imp = lambda s_, st: dict(op="import", s=s_, hex=hex_of(st), cls="ok")
+        ops += [imp(0, X), imp(1, Y), imp(2, Y), imp(3, X)]
+        ops.append(dict(op="merge", s=0, t=1)); xy = len(ops) - 1
+        ops.append(dict(op="merge", s=2, t=3)); yx = len(ops) - 1
+        laws.append(("merge_commutative", xy, yx))
+        ops.append(imp(1, M_)); mx = len(ops) - 1
+        laws.append(("merge_is_elementwise_maximum", xy, mx))
+        ops.append(dict(op="merge", s=0, t=2)); again = len(ops) - 1
+        laws.append(("merge_idempotent", xy, again))
+        ops.append(dict(op="rt", s=0)); r = len(ops) - 1
+        laws.append(("export_import_identity", xy, r))
+        ops.append(dict(op="est", s=0))
+        ops.append(dict(op="est", s=3))
+    elif rnd.random() < 0.6:
         kind = "union"
         A2 = A + [rnd.choice(A) for _ in range(rnd.randint(0, 30))] if A else []
         rnd.shuffle(A2)
